@@ -200,12 +200,33 @@ class Case:
     def __init__(self, kind, P, inw, outw, ctor, real=None):
         self.kind, self.P, self.inw, self.outw, self.ctor = kind, [int(p) for p in P], list(inw), list(outw), ctor
         self.real = real or kind          # class actually instantiated (EqualConstantWrap -> EqualConstant)
+        self.alias = {}                   # input position j -> earlier position k: both positions are THE SAME Wire object
 
     def key(self):
-        return (self.kind, tuple(self.P), tuple(self.inw), tuple(self.outw))
+        return (self.kind, tuple(self.P), tuple(self.inw), tuple(self.outw), tuple(sorted(self.alias.items())))
 
     def summary(self):
-        return dict(block=self.real, lean_params=self.P, input_widths=self.inw, output_widths=self.outw)
+        d = dict(block=self.real, lean_params=self.P, input_widths=self.inw, output_widths=self.outw)
+        if self.alias:
+            d['same_wire'] = {str(j): k for j, k in sorted(self.alias.items())}
+        return d
+
+    def aliased(self, amap):
+        """the same constructor call with input position j wired to the Wire object of position amap[j] (equal widths)"""
+        for j, k in amap.items():
+            assert k < j and self.inw[j] == self.inw[k] and k not in amap, (self.kind, amap, self.inw)
+        self.alias = dict(amap)
+        return self
+
+    def free(self):
+        return [j for j in range(len(self.inw)) if j not in self.alias]
+
+    def fix(self, X):
+        """make a vector consistent with the aliasing (position j carries the value of its wire)"""
+        X = list(X)
+        for j, k in self.alias.items():
+            X[j] = X[k]
+        return X
 
 
 def mk(kind, **a):
@@ -293,6 +314,8 @@ def build(case):
     import py4hw
     sysobj = py4hw.HWSystem()
     ins = [sysobj.wire(f'i{j}', w) for j, w in enumerate(case.inw)]
+    for j, k in case.alias.items():
+        ins[j] = ins[k]
     outs = [sysobj.wire(f'o{j}', w) for j, w in enumerate(case.outw)]
     try:
         case.ctor(py4hw, sysobj, ins, outs)
@@ -599,6 +622,73 @@ def sample_vectors(case, r, n):
     return vs
 
 
+def aliased_cases(tier):
+    """multi-operand blocks whose input list contains THE SAME Wire object more than once.  The models and the specification
+    are functions of the VALUE per input position, so aliasing is simply "these positions always carry equal values": the
+    expected output is the ordinary specification on the aliased vector.  (Seed C08i: a helper that drops repeated wires
+    before the ladders is right for And/Or and wrong for Xor.)"""
+    C = []
+    ws_ = (1, 2, 3) if tier == 'quick' else (1, 2, 3, 4, 8, 65)
+    for w in ws_:
+        for k in ('And', 'Or', 'Xor', 'Nor'):
+            C += [mk(k, rw=w, ws=[w] * 2).aliased({1: 0}),
+                  mk(k, rw=w, ws=[w] * 3).aliased({1: 0}), mk(k, rw=w, ws=[w] * 3).aliased({2: 0}),
+                  mk(k, rw=w, ws=[w] * 3).aliased({2: 1}), mk(k, rw=w, ws=[w] * 3).aliased({1: 0, 2: 0}),
+                  mk(k, rw=w, ws=[w] * 4).aliased({2: 0}), mk(k, rw=w, ws=[w] * 4).aliased({3: 0}),
+                  mk(k, rw=w, ws=[w] * 4).aliased({1: 0, 3: 2}), mk(k, rw=w, ws=[w] * 4).aliased({2: 1}),
+                  mk(k, rw=w, ws=[w] * 5).aliased({4: 0, 3: 1}), mk(k, rw=w, ws=[w] * 5).aliased({2: 0, 4: 0}),
+                  mk(k, rw=w, ws=[w] * 6).aliased({3: 0, 4: 1, 5: 2})]
+        for k in ('And2', 'Or2', 'Nand2', 'Nor2', 'Xor2'):
+            C.append(mk(k, rw=w, aw=w, bw=w).aliased({1: 0}))
+        C += [mk('Equal', rw=1, aw=w, bw=w).aliased({1: 0}),
+              mk('AnyEqual', rw=1, ws=[w] * 2).aliased({1: 0}), mk('AnyEqual', rw=1, ws=[w] * 3).aliased({1: 0}),
+              mk('AnyEqual', rw=1, ws=[w] * 3).aliased({2: 0}), mk('AnyEqual', rw=1, ws=[w] * 4).aliased({3: 1}),
+              mk('Comparator', w=w, gw=1, ew=1).aliased({1: 0}), mk('ComparatorSignedUnsigned', w=w).aliased({1: 0}),
+              mk('Swap', raw=w, rbw=w, aw=w, bw=w, sw=1).aliased({1: 0}),
+              mk('Mux2', rw=w, sw=1, w0=w, w1=w).aliased({2: 1}),
+              mk('Mux', rw=w, sw=1, ws=[w] * 2).aliased({2: 1}),
+              mk('Mux', rw=w, sw=2, ws=[w] * 4).aliased({3: 1}), mk('Mux', rw=w, sw=2, ws=[w] * 4).aliased({2: 1, 4: 3}),
+              mk('Mux', rw=w, sw=2, ws=[w] * 4).aliased({2: 1, 3: 1, 4: 1}), mk('Mux', rw=w, sw=3, ws=[w] * 8).aliased({5: 1, 8: 2}),
+              mk('SelectDefault', rw=w, ns=2, ws=[w] * 2, dw=w).aliased({3: 2}), mk('SelectDefault', rw=w, ns=2, ws=[w] * 2, dw=w).aliased({4: 2}),
+              mk('SelectDefault', rw=w, ns=3, ws=[w] * 3, dw=w).aliased({1: 0, 5: 3}),
+              mk('OneHotDemux', aw=w, ns=3, ows=[w] * 3).aliased({2: 1}), mk('OneHotDemux', aw=w, ns=3, ows=[w] * 3).aliased({2: 1, 3: 1}),
+              mk('ConcatenateMSBF', rw=3 * w, ws=[w] * 3).aliased({1: 0}), mk('ConcatenateMSBF', rw=3 * w, ws=[w] * 3).aliased({2: 0}),
+              mk('ConcatenateLSBF', rw=3 * w, ws=[w] * 3).aliased({2: 0}), mk('ConcatenateLSBF', rw=4 * w, ws=[w] * 4).aliased({1: 0, 2: 0, 3: 0}),
+              mk('PriorityEncoder', ws=[w] * 4, rw=w, inc=True).aliased({2: 0}), mk('PriorityEncoder', ws=[w] * 4, rw=w, inc=False).aliased({1: 0, 3: 0})]
+        for k in ('Max2', 'Min2', 'SignedMax2', 'SignedMin2'):
+            C.append(mk(k, w=w, rw=w).aliased({1: 0}))
+        for k in ('Select', 'OneHotMux'):
+            C += [mk(k, rw=w, ns=3, ws=[w] * 3).aliased({5: 3}), mk(k, rw=w, ns=3, ws=[w] * 3).aliased({4: 3, 5: 3}),
+                  mk(k, rw=w, ns=3, ws=[w] * 3).aliased({1: 0}), mk(k, rw=w, ns=2, ws=[w] * 2).aliased({1: 0, 3: 2})]
+    # a control wire that is also a data wire (1-bit data)
+    C += [mk('Mux', rw=1, sw=1, ws=[1] * 2).aliased({1: 0}), mk('Mux2', rw=1, sw=1, w0=1, w1=1).aliased({1: 0}),
+          mk('Swap', raw=1, rbw=1, aw=1, bw=1, sw=1).aliased({2: 0}), mk('Select', rw=1, ns=2, ws=[1] * 2).aliased({2: 0}),
+          mk('OneHotMux', rw=1, ns=2, ws=[1] * 2).aliased({3: 1}), mk('SelectDefault', rw=1, ns=2, ws=[1] * 2, dw=1).aliased({4: 0}),
+          mk('BufEnable', aw=1, enw=1, rw=1).aliased({1: 0}), mk('OneHotDemux', aw=1, ns=2, ows=[1] * 2).aliased({1: 0}),
+          mk('Demux', aw=2, sw=2, n=4).aliased({1: 0}), mk('Minterm', rw=1, n=3, v=5).aliased({1: 0}),
+          mk('Minterm', rw=1, n=4, v=9).aliased({3: 0}), mk('Minterm', rw=1, n=3, v=4).aliased({2: 0})]
+    return C
+
+
+def aliased_vectors(case, r, limit, n):
+    """every combination of the FREE positions when that is at most `limit` bits, else structured samples; aliased positions follow"""
+    free = case.free()
+    tot = sum(case.inw[j] for j in free)
+    vs = []
+    if tot <= limit:
+        for k in range(1 << tot):
+            X = [0] * len(case.inw)
+            for j in free:
+                X[j] = k & M(case.inw[j])
+                k >>= case.inw[j]
+            vs.append(case.fix(X))
+    else:
+        vs = [case.fix(X) for X in sample_vectors(case, r, n)]
+        if max(case.inw) > 8:
+            vs += [case.fix(X) for X in wide_vectors(case, r, 2)]
+    return vs
+
+
 WIDE_WIDTHS = [63, 64, 65, 96, 128]        # 63/64 = controls, 65/96/128 = beyond one machine word
 
 
@@ -848,6 +938,11 @@ def main(res, tier, rng, replay):
                      (mk('Equal', aw=4, bw=4, rw=2), [[5, 5], [5, 4]]),
                      (mk('AnyEqual', rw=1, ws=[4, 4, 4]), [[9, 3, 9], [1, 2, 3], [0, 0, 0]])):
         b.add(rc, 'x', vecs)
+    # the same Wire object at several input positions
+    ar = r.fork('alias')
+    for ai, ac in enumerate(aliased_cases(tier)):
+        b.add(ac, 'x', aliased_vectors(ac, ar.fork(ai), 10 if tier == 'quick' else 12, 60 if tier == 'quick' else 400))
+        res.hist('aliased_inputs', ac.kind)
     # wide data paths: every width-parametric block at 63/64 (controls) and 65/96/128 bits with vectors that set the top bits.
     # quick: 65 + one seeded width of {96, 128} + one seeded control; thorough: all five
     wr = r.fork('wide')
